@@ -87,6 +87,24 @@ def argument_grid(mode):
                         out.append(G.case("arg-%s-%s-%d" % (cls, label, k), cls, mode, pre + [op % (b1, b2)] + tail + ["push v0 9"])); k += 1
     return out
 
+def boundary_grid(mode):
+    """a reduced argument grid around usize::MAX (the optimized profile wraps where the debug profile panics)"""
+    out = []
+    k = 0
+    M = (1 << 64) - 1
+    for cls in ("w4", "b1"):
+        for label, pre in G.start_states(cls)[:4]:
+            for v in (M - 1, M):
+                for op in ("insert v0 %d 5", "remove v0 %d", "swap_remove v0 %d", "split_off v0 %d c1", "truncate v0 %d", "resize v0 %d 3", "reserve v0 %d", "reserve_exact v0 %d"):
+                    out.append(G.case("bnd-%s-%s-%d" % (cls, label, k), cls, mode, pre + [op % v, "push v0 9"])); k += 1
+            bs = ["U", "I0", "E0", "I2", "E2", "I%d" % M, "E%d" % M, "I%d" % (M - 1), "E%d" % (M - 1)]
+            for b1 in bs:
+                for b2 in bs:
+                    for op in ("drain v0 %s %s it", "splice v0 %s %s it[7,8] it", "extend_from_within v0 %s %s"):
+                        tail = ["drop it"] if "it" in op.split()[-1:] else []
+                        out.append(G.case("bnd-%s-%s-%d" % (cls, label, k), cls, mode, pre + [op % (b1, b2)] + tail + ["push v0 9"])); k += 1
+    return out
+
 # -------------------------------------------------------------------------------------------------
 def with_directive(cases, directive):
     out = []
@@ -175,6 +193,9 @@ def sentinel_sweep(mode):
             out.append(G.case("sent-%s-%d" % (cls, k), cls, mode, ctor + ["leak v0"])); k += 1
             out.append(G.case("sent-%s-%d" % (cls, k), cls, mode, ctor + ["from_str 0", "from_str 3", "push v0 1"])); k += 1
             out.append(G.case("sent-%s-%d" % (cls, k), cls, mode, ctor + ["forget v0"])); k += 1
+            # iterators that yield nothing but advertise a non-zero upper bound
+            for it in ("it[]h0-5", "it[N,4]h0-3", "it[]h0-N"):
+                out.append(G.case("sent-%s-%d" % (cls, k), cls, mode, ctor + ["extend v0 " + it, "splice v0 U U " + it + " sp", "drop sp", "extend v0 " + it, "push v0 9"])); k += 1
     return out
 
 def forget_cases(tier, seed, mode):
@@ -241,6 +262,18 @@ def raw_cases(tier, seed, mode):
             for n in (0, 1, 5):
                 for op in ("raw_parts v0", "raw_part v0"):
                     out.append(G.case("rawA-%s-%d" % (cls, k), cls, mode, ["with_alignment v0 %d %d" % (n, a), "push v0 1", "push v0 2", op, "push v0 3", "pop v0"])); k += 1
+    return out
+
+def raw_natural_cases(mode):
+    """raw-parts round trips of buffers with the element type's natural alignment (the over-aligned ones are C14's)"""
+    out = []
+    k = 0
+    for cls in G.CLASSES:
+        for label, pre in G.start_states(cls):
+            if any("with_alignment" in l for l in pre):
+                continue
+            for op in ("raw_parts v0", "raw_part v0"):
+                out.append(G.case("rawN-%s-%s-%d" % (cls, label, k), cls, mode, pre + [op, "push v0 5", "pop v0", "truncate v0 1"])); k += 1
     return out
 
 def hostile_cases(tier, seed, mode):
@@ -338,17 +371,17 @@ def general(tier, seed, pid, modes=("debug",)):
 
 PROPS = {
     "C01": {"modules": ["MiniVecProof.Props.C01"],
-            "cases": lambda tier, seed: general(tier, seed, "C01"),
+            "cases": lambda tier, seed: general(tier, seed, "C01") + [("release", boundary_grid("release"))],
             "owned_oracles": ["O vec-mismatch", "macro-evals", "X signal"], "owned_diffs": ["result", "contents", "panic", "crash"],
             "partial_missing": ["refinement to Vec semantics proved for every history over push, pop, insert, remove, swap_remove, truncate, clear, reserve, reserve_exact, shrink_to, shrink_to_fit (C01_refines_vec_partial); every other operation of the property (resize, extend family, append, split_off, dedup, retain, iterators, clone, conversions, macro) is tied to Vec and to the model by the three-way correspondence only"]},
     "C02": {"modules": ["MiniVecProof.Props.C02", "MiniVecProof.Props.C10", "MiniVecProof.Props.C10IntoIter"],
-            "cases": lambda tier, seed: general(tier, seed, "C02"),
+            "cases": lambda tier, seed: [(m, c + raw_natural_cases(m)) for m, c in general(tier, seed, "C02")],
             "owned_oracles": ["O ledger", "X signal"], "owned_diffs": ["own", "crash"],
             "partial_missing": ["exactly-once destruction and conservation proved for every completed history over the 11 operations of POp followed by Drop (C02_exactly_once_partial, C02_no_double_drop, C02_no_leak); for Drain and IntoIter dropped after any interleaving of steps: yielded front ++ destroyed ++ yielded back reversed = the selected range (specSteps_partition + C10_drain_partial / C10_into_iter_partial); Splice, DrainFilter and the remaining operations by correspondence + per-element ledger"]},
     "C03": {"modules": ["MiniVecProof.Props.C01", "MiniVecProof.Proofs.MemDrop", "MiniVecProof.Props.C09"],
-            "cases": lambda tier, seed: general(tier, seed, "C03", modes=("debug", "release")),
+            "cases": lambda tier, seed: [(m, c + huge_cases(m) + raw_natural_cases(m)) for m, c in general(tier, seed, "C03", modes=("debug", "release"))],
             "owned_oracles": ["O alloc", "O cap"], "owned_diffs": ["alloc", "ub", "crash"],
-            "partial_missing": ["layout quoting proved for grow (every caller) and Drop; in-bounds access proved for push, pop, truncate, clear, Drop; others by correspondence + checking allocator"]},
+            "partial_missing": ["layout quoting proved for grow (every caller), Drop and IntoIter::drop; in-bounds access proved for the 11 operations of POp, Drain and IntoIter (every step and drop), clone, retain scan; others by correspondence + checking allocator"]},
     "C04": {"modules": ["MiniVecProof.Props.C01"],
             "cases": lambda tier, seed: [("debug", corpus("debug", "C04") + panic_sweep(tier, seed, "debug"))],
             "owned_oracles": ["O ledger", "O alloc", "X signal 11"], "owned_diffs": ["own", "contents", "result", "panic", "alloc", "ub", "crash"],
@@ -359,7 +392,7 @@ PROPS = {
             "partial_missing": ["Splice/DrainFilter steps before the forget and IntoIter: correspondence only"]},
     "C06": {"modules": ["MiniVecProof.Props.C06"],
             "cases": lambda tier, seed: [("debug", corpus("debug", "C06") + sentinel_sweep("debug")), ("release", corpus("release", "C06") + sentinel_sweep("release"))],
-            "owned_oracles": ["X signal", "O ledger", "O alloc", "O vec-mismatch"], "owned_diffs": ["result", "contents", "panic", "alloc", "own", "ub", "crash", "cap"]},
+            "owned_oracles": ["X signal", "O ledger", "O alloc", "O vec-mismatch", "sentinel-noalloc"], "owned_diffs": ["result", "contents", "panic", "alloc", "own", "ub", "crash", "cap"]},
     "C07": {"modules": ["MiniVecProof.Props.C07", "MiniVecProof.Props.C01"],
             "cases": lambda tier, seed: [(m, c + growth_cases(m)) for m, c in general(tier, seed, "C07", modes=("debug", "release"))],
             "owned_oracles": ["O cap", "reserve-contract", "stable", "log-resizes"], "owned_diffs": ["cap", "alloc"],
